@@ -34,6 +34,29 @@ enum Op {
     Single { fail: bool, partial: bool, bin: bool },
     /// list of n commands; fail_at: index answered with ACK
     List { n: usize, fail_at: Option<usize>, partial: bool },
+    /// C17: album art; kind e = embedded picture, f = cover file only, u = readpicture unknown to the server (code 5) + cover file,
+    /// n = neither has data, x = readpicture answers with another error (code 50)
+    Art { kind: char, size: usize, limit: usize, mime: bool },
+}
+/// the picture the model server holds for a uri `art-<kind>-<size>-<limit>-<m|x>`
+fn art_byte(size: usize, i: usize) -> u8 { ((i * 31 + size * 7 + i / 251) % 256) as u8 }
+fn art_reply(name: &str, args: &[String], i: usize) -> Vec<u8> {
+    let parts: Vec<&str> = args.first().map(|u| u.split('-').collect()).unwrap_or_default();
+    if parts.len() != 5 || parts[0] != "art" { return format!("ACK [2@{i}] {{{name}}} bad uri\n").into_bytes(); }
+    let kind = parts[1]; let size: usize = parts[2].parse().unwrap(); let limit: usize = parts[3].parse().unwrap(); let mime = parts[4] == "m";
+    let off: usize = args.get(1).and_then(|o| o.parse().ok()).unwrap_or(0);
+    let emb = name == "readpicture";
+    if emb && kind == "u" { return format!("ACK [5@{i}] {{}} unknown command \"readpicture\"\n").into_bytes(); }
+    if emb && kind == "x" { return format!("ACK [50@{i}] {{readpicture}} No such file\n").into_bytes(); }
+    let has = if emb { kind == "e" } else { kind == "f" || kind == "u" || kind == "e" };
+    if !has || off > size { return Vec::new(); }      // no binary: "no data"
+    let end = (off + limit).min(size);
+    let mut out = format!("size: {size}\n").into_bytes();
+    if emb && mime { out.extend_from_slice(b"type: image/png\n"); }
+    out.extend_from_slice(format!("binary: {}\n", end - off).as_bytes());
+    out.extend((off..end).map(|k| art_byte(size, k)));
+    out.push(b'\n');
+    out
 }
 #[derive(Clone, Debug)]
 struct Step { delay: u64, op: Op, cancel_after: Option<u64> }
@@ -61,7 +84,8 @@ fn gen_scenario(seed: u64) -> Scenario {
     for _ in 0..nc {
         let mut steps = Vec::new();
         for _ in 0..1 + r.below(4) {
-            let op = match r.below(5) {
+            let op = match r.below(6) {
+                5 => Op::Art { kind: r.pick(&['e', 'e', 'f', 'u', 'n', 'x']), size: r.pick(&[0usize, 1, 63, 64, 65, 200, 1000, 9000, 20000]), limit: r.pick(&[1usize, 7, 64, 8192]), mime: r.below(2) == 0 },
                 0 | 1 => Op::Single { fail: false, partial: false, bin: r.below(4) == 0 },
                 2 => Op::Single { fail: true, partial: r.below(2) == 0, bin: false },
                 3 => Op::List { n: 1 + r.below(4), fail_at: None, partial: false },
@@ -125,6 +149,13 @@ fn reply_for(cmds: &[(String, Vec<String>)], is_list: bool) -> Vec<u8> {
             if a == "pfail" { out.extend_from_slice(format!("echo: {name}\npartial: 1\n").as_bytes()); }
             out.extend_from_slice(format!("ACK [5@{i}] {{{name}}} boom\n").as_bytes());
             return out;
+        }
+        if name == "readpicture" || name == "albumart" {
+            let r = art_reply(name, args, i);
+            if r.starts_with(b"ACK") { out.extend_from_slice(&r); return out; }
+            out.extend_from_slice(&r);
+            if is_list { out.extend_from_slice(b"list_OK\n"); }
+            continue;
         }
         out.extend_from_slice(format!("echo: {name}\n").as_bytes());
         if a == "bin" { out.extend_from_slice(b"binary: 7\nOK\nAC\nK\n"); }
@@ -301,10 +332,28 @@ async fn caller(ci: usize, steps: Vec<Step>, client: Client, sh: Sh, t0: Instant
     for (si, st) in steps.iter().enumerate() {
         sleep(Duration::from_millis(st.delay)).await;
         let base = format!("q{}{}", letters(ci), letters(si));
+        if let Op::Art { kind, size, limit, mime } = &st.op {
+            // keep the number of requests bounded: at most ~300 chunks
+            let limit = if size / limit > 300 { size / 300 + 1 } else { *limit };
+            let uri = format!("art-{kind}-{size}-{limit}-{}", if *mime { "m" } else { "x" });
+            tr(&sh, t0, format!("caller {ci} loads album art {uri}"));
+            let r = match timeout(Duration::from_secs(600), client.album_art(&uri)).await { Ok(r) => r, Err(_) => { viol(&sh, if faulty { "C08" } else { "C17" }, format!("album_art({uri}) did not finish within 600 s (virtual)")); return; } };
+            let want: Vec<u8> = (0..*size).map(|k| art_byte(*size, k)).collect();
+            match (kind, &r) {
+                (_, Err(CommandError::ConnectionClosed)) | (_, Err(CommandError::Protocol(_))) if faulty => { if matches!(r, Err(CommandError::Protocol(_))) { sh.lock().unwrap().protocol_errs += 1; } }
+                ('e', Ok(Some((data, m)))) => { if data[..] != want[..] || m.as_deref() != (if *mime { Some("image/png") } else { None }) { viol(&sh, "C17", format!("album_art({uri}): {} bytes (expected {}), identical: {}, mime {m:?}", data.len(), want.len(), data[..] == want[..])); } }
+                ('f', Ok(Some((data, m)))) | ('u', Ok(Some((data, m)))) => { if data[..] != want[..] || m.is_some() { viol(&sh, "C17", format!("album_art({uri}) from the cover file: {} bytes (expected {}), identical: {}, mime {m:?}", data.len(), want.len(), data[..] == want[..])); } }
+                ('n', Ok(None)) => {}
+                ('x', Err(CommandError::ErrorResponse { error, .. })) if error.code == 50 => {}
+                (_, other) => viol(&sh, "C17", format!("album_art({uri}) = {}", match other { Ok(Some((d, m))) => format!("Ok(Some({} bytes, {m:?}))", d.len()), Ok(None) => "Ok(None)".into(), Err(e) => format!("Err({e})") })),
+            }
+            continue;
+        }
         let res: Result<Result<Vec<mpd_client::protocol::response::Frame>, CommandError>, ()>;
         let (names, fail_at, partial, single): (Vec<String>, Option<usize>, bool, bool) = match &st.op {
             Op::Single { fail, partial, .. } => (vec![base.clone()], if *fail { Some(0) } else { None }, *partial, true),
             Op::List { n, fail_at, partial } => ((0..*n).map(|k| format!("{base}{}", letters(k))).collect(), *fail_at, *partial, false),
+            Op::Art { .. } => unreachable!(),
         };
         let mk = |k: usize| {
             let c = RawCommand::new(&names[k]);
